@@ -399,9 +399,12 @@ def h_extreme(ctx, cfg):
     np = ctx.np
     gd = ctx.mod("batchie.scoring.gaussian_dbal")
     nt = 3
-    sizes = [1, 150, 2]
-    varis = [1.0, 1e-3, 1e3]
-    means = [[[0.1 * (t + 1) + 0.01 * e for e in range(sz)] for t in range(nt)] for sz in sizes]
+    # plate 3: means of magnitude 1e6 whose spread across posterior samples is of order 1 (a formula that subtracts large
+    # nearly equal numbers loses them)
+    sizes = [1, 150, 2, 3]
+    varis = [1.0, 1e-3, 1e3, 1.0]
+    offs = [0.0, 0.0, 0.0, 1e6]
+    means = [[[offs[p] + 0.1 * (t + 1) + 0.01 * e for e in range(sz)] for t in range(nt)] for p, sz in enumerate(sizes)]
     vars_ = [[[varis[p] * (1.0 + 0.1 * t) for e in range(sz)] for t in range(nt)] for p, sz in enumerate(sizes)]
     dist = [[0.0 if i == j else 0.5 + 0.1 * (i + j) for j in range(nt)] for i in range(nt)]
 
